@@ -32,6 +32,9 @@ package tracing
 //@   loop 1 for
 //@     invariant t.traces == old(t.traces) && t.subscription == old(t.subscription) && t.unSubscription == old(t.unSubscription) &&
 //@               t.terminate == old(t.terminate) && t.done == old(t.done)
+//@     invariant [the-cancellation-case-is-armed-with-the-context-or-disarmed] cancelled == nil || cancelled == ctxdone(ctx)
+//@     iter ensures [a-turn-that-takes-the-cancellation-case-disarms-it-no-spinning]
+//@       old(cancelled) != nil && isRecv(ev(old(evlen))) && evch(ev(old(evlen))) == old(cancelled) ==> cancelled == nil
 //@     iter ensures [broadcast-same-trace-to-every-subscriber-in-order]
 //@       isRecv(ev(old(evlen))) && evch(ev(old(evlen))) == t.traces ==>
 //@         t.subscribers == old(t.subscribers) && evlen == old(evlen) + 1 + len(t.subscribers) &&
@@ -128,6 +131,9 @@ package tracing
 //@             isCall(ev(p + 1)) && evch(ev(p + 1)) == code("tracing|ISenderHandle.Done")
 //@   loop 1 for
 //@     invariant count(Call, code("tracing|ISenderHandle.Done")) == old(count(Call, code("tracing|ISenderHandle.Done")))
+//@     invariant [the-cancellation-case-is-armed-with-the-context-or-disarmed] cancelled == nil || cancelled == ctxdone(ctx)
+//@     iter ensures [a-turn-that-takes-the-cancellation-case-disarms-it-no-spinning]
+//@       old(cancelled) != nil && isRecv(ev(old(evlen))) && evch(ev(old(evlen))) == old(cancelled) ==> cancelled == nil
 //@     iter ensures [every-transformed-trace-is-forwarded] true
 //@   loop 2 range traces
 //@     invariant count(Call, code("tracing|ISenderHandle.Done")) == old(count(Call, code("tracing|ISenderHandle.Done")))
